@@ -83,8 +83,8 @@ CHECKS = {
              "run through the real Shapley code and compared with the per-player maxima.",
         note="basis enumeration instead of a computer-algebra proof; identity asserted only with empty coalition at 0 and grand coalition known"),
     "C06": dict(
-        level="model_checking", design="§5 C06", technique="TLC on MC_Shapley: weighted form vs the n! orderings on all unit games (n<=7), efficiency/symmetry/null-player to n=10; trace validation of both real entry points",
-        text="TLC checks the code's weighted-sum form against the average marginal contribution over all n! orderings on every unit game for n=2..5 (quick) / 2..7 (thorough) "
+        level="model_checking", design="§5 C06", technique="TLC on MC_Shapley: weighted form vs the n! orderings on all unit games (n<=6), efficiency/symmetry/null-player to n=10; trace validation of both real entry points",
+        text="TLC checks the code's weighted-sum form against the average marginal contribution over all n! orderings on every unit game for n=2..5 (quick) / 2..6 (thorough) "
              "and on all games with values in {0,1,2} for n=3, plus efficiency, symmetry under transpositions and the null-player law up to n=8 (10 thorough); "
              "compute_shapley_value and compute_shapley_value_for_player are run on all unit games (n<=7/10) and random integer, dyadic, negative, null-player, relabelled and "
              "combined games, and their results (certified integer intervals of n!*scale*value) must contain the specification's ordering average; both entry points must agree bit for bit.",
